@@ -30,6 +30,8 @@ import producer
 import fanout
 import strshapes
 import watchdog
+import c09_logging
+import c09_inject
 from c09_payloads import PAYLOADS
 
 use_repo()
@@ -141,6 +143,15 @@ def device_class(sender):
     return getattr(importlib.import_module("pyplumio." + mod), cls)
 
 
+def exc_family(e):
+    """the class of a decoder's exception at the granularity the pipeline distinguishes: the producer loop has
+    handlers for ProtocolError, (OSError, TimeoutError) and Exception; the consumer for Exception"""
+    from pyplumio.exceptions import ProtocolError
+    fam = ("ProtocolError" if isinstance(e, ProtocolError) else "TimeoutError" if isinstance(e, asyncio.TimeoutError)
+           else "OSError" if isinstance(e, OSError) else "other")
+    return f"{fam}/{type(e).__name__}"
+
+
 def classify(fr, proto):
     """-> dict(word, items, raises) : the model's input for this frame, derived from the implementation"""
     if fr.get("env", "ok") != "ok":
@@ -149,11 +160,11 @@ def classify(fr, proto):
     fcls = frame_class(kind)
     cls = "p" if kind == PV_REQ else "c" if kind == CD_REQ else "o" if issubclass(fcls, Request) else "d"
     controller = int(sender == ECOMAX)
-    items, raises = [], False
+    items, raises, exc = [], False, None
     try:
         dcls = device_class(sender)
-    except Exception:  # noqa: BLE001  no device class for this address: get_device_entry raises
-        dcls, raises = None, True
+    except Exception as e:  # noqa: BLE001  no device class for this address: get_device_entry raises
+        dcls, raises, exc = None, True, "entry:" + type(e).__name__
     if dcls is not None:
         name = DeviceType(sender).name.lower()
         dev = proto.data.get(name)
@@ -165,15 +176,21 @@ def classify(fr, proto):
             data = twin.data
             if data is not None:
                 items = [(str(k), canon_value(v)) for k, v in data.items()]
-        except Exception:  # noqa: BLE001
-            raises = True
+        except Exception as e:  # noqa: BLE001
+            raises, exc = True, exc_family(e)
     return dict(word=f"{cls}:{sender}:{controller}:{len(items)}:{int(raises)}", items=items, raises=raises, skip=False,
-                sender=sender)
+                sender=sender, exc=exc)
 
 
 # ------------------------------------------------------------------ one case
 
 def run_case(case):
+    """the run under the case's logging configuration (dimension `log`, see c09_logging)"""
+    with c09_logging.Logging(case.get("log") or "default"):
+        return _run_case(case)
+
+
+def _run_case(case):
     """case = dict(consumers, net (index into NETS or dict), batches=[[frame spec…]…])
     -> dict(words per batch, snapshots, final observation, extra)"""
     net = NETS[case["net"]] if isinstance(case["net"], int) else case["net"]
@@ -617,6 +634,27 @@ def identical_cases(rng, k):
                    hold=(i % 2 == 0), identical=True)
 
 
+def decoder_class_cases(rng, k):
+    """undecodable frames chosen by the CLASS of the exception their decoder raises: a device-available response cut at
+    every point (cuts inside an IPv4 field make socket.inet_ntoa raise OSError -- the class the producer loop takes for a
+    lost connection when it comes from the READER), regulator data with an IPv4 entry cut short, and the other kinds;
+    each under every logging configuration, between markers and controller requests"""
+    p176 = bytes.fromhex(PAYLOADS[DA_RESP][0][1])
+    schema_ip = F(213, bytes([1, 0, 16, 100, 0]))          # one entry of type id 16 (IPv4)
+    todo = [[F(DA_RESP, p176[:c])] for c in range(0, len(p176))]
+    todo += [[schema_ip, F(8, bytes.fromhex("62640001") + b"\0" + bytes(rng.randrange(256) for _ in range(c)))] for c in range(0, 5)]
+    for i in range(k):
+        kind = rng.choice([x for x in DATA_KINDS if x not in STATEFUL])
+        pl = valid(kind, rng)
+        todo.append([F(kind, pl[:rng.randint(0, max(0, len(pl) - 1))])])
+    for i, frs in enumerate(todo):
+        for log in (c09_logging.MODES if i % 4 == 0 else ["debug", rng.choice(["default", "info", "debug-bare"])]):
+            n = 1 + i % 5
+            frames = [marker(0)] + [dict(f) for f in frs] * rng.choice([1, 1, n + 1]) + [marker(1), F(CD_REQ), F(PV_REQ), marker(2)]
+            yield dict(consumers=n, net=i % len(NETS), batches=rebatch(rng, frames, mode=["one", "single", "random"][i % 3]),
+                       hold=(i % 6 == 5), log=log)
+
+
 def random_net(rng):
     def ip():
         return ".".join(str(rng.randrange(256)) for _ in range(4))
@@ -749,7 +787,13 @@ def evaluate(res, cases):
             res.count(f"frame:{fr['kind']}:{cls}")
         res.count(f"controller-requests:{min(nreq, 5)}")
         inp = dict(consumers=case["consumers"], net=case["net"], batches=case["batches"], hold=bool(case.get("hold")))
+        if case.get("log"):
+            inp["log"] = case["log"]
         res.count(f"first-batch-held:{int(bool(case.get('hold')))}")
+        res.count("logging:" + (case.get("log") or "default"))
+        for f in frames:
+            if f.get("exc"):
+                res.count("decoding-raises:" + f["exc"] + (" [DEBUG logging, formatted in the reader]" if case.get("log") == "debug" else ""))
         for lab in case.get("strings", []):
             res.count("string:" + lab.split(":")[0])
             res.count("string-shape:" + lab.split(":")[1])
@@ -761,9 +805,17 @@ def evaluate(res, cases):
         if r["extra"]["several_devices_for_one_address"]:
             # frames landed on more than one device object for one address: that is C10's violation, and the twin
             # decoding (device state) is ambiguous then -- not judged here
-            res.count("not-judged:several-device-objects-for-one-address(C10)")
-            if not any("several device objects" in x for x in res.notes):
-                res.notes.append("several device objects for one address were observed (a C10 violation); such runs are not judged by C09")
+            # … but WHERE each valid frame went is observed directly, without the twin: "delivered to its device" means the
+            # device entry the connection has for the sender's address (Pipe machine: C09Pipe.handled_by_the_device)
+            res.count("several-device-objects-for-one-address")
+            astray = [tuple(p) for p in r["extra"]["delivered_to"] if p[0] != JUNK and p[1] >= 1000
+                      and (case["batches"] and [fr for b in case["batches"] for fr in b][p[0]]["kind"] not in STATEFUL)]
+            if astray:
+                res.fail("spec", inp, "every valid frame is delivered to ITS device: the one device entry the connection holds for the "
+                         "sender's address (C09Pipe.handled_by_the_device)",
+                         dict(delivered_to_an_object_that_is_not_the_entry=astray[:8], device_map=r["extra"]["device_map"], words=r["words"]),
+                         f"{len(astray)} valid frame(s) were handed to a device object that is not the connection's entry for the sender's "
+                         "address: their data never reaches the device the application holds")
             continue
         if r["extra"]["harness_errors"]:
             raise RuntimeError(f"task-factory tap failed: {r['extra']['harness_errors']}")
@@ -907,9 +959,10 @@ def run(ctx):
                 "decodable kind cut at truncation points, random payloads, out-of-table ids (schema type >= 17, schedule >= 40, "
                 "31-day-month alert dates, counts beyond the payload), controller requests 64/48 (and from ecoSTER / addresses "
                 "without a device class), other requests, frames the reader rejects; bursts of undecodable frames larger than the "
-                "consumer pool, followed by valid marker frames; string-bearing payloads (UID model name and uid, password, SSID of a device-available frame, null-terminated regulator-data strings) with texts drawn from shape families (runs of letters, words and repeated blanks, digits, letters+1..4 digits, repeated separators, two-character periods, multi-byte and invalid UTF-8) at lengths up to the wire limit of the field; byte-identical consecutive frames (2..4 repeats, as first frames and later); every step under a CPU watchdog (a step that does not come back = a frame that stalls the pipeline); maximum-length (1000-byte) frames, decodable and not, carrying a complete small frame near their tail; bursts of 35..2200 frames in one chunk while all consumers are held up in the first device creation. distinct = (consumers, network, classified sequence, payloads); "
+                "consumer pool, followed by valid marker frames; string-bearing payloads (UID model name and uid, password, SSID of a device-available frame, null-terminated regulator-data strings) with texts drawn from shape families (runs of letters, words and repeated blanks, digits, letters+1..4 digits, repeated separators, two-character periods, multi-byte and invalid UTF-8) at lengths up to the wire limit of the field; byte-identical consecutive frames (2..4 repeats, as first frames and later); every case under a logging configuration of the application (disabled / INFO with a formatting handler / DEBUG with a formatting handler: the reader's 'Received frame' line decodes the frame in the producer / DEBUG without handler); undecodable frames by the class of their decoder's exception (device-available response cut at every point: OSError inside the IPv4 fields; regulator-data IPv4 entries); every step under a CPU watchdog (a step that does not come back = a frame that stalls the pipeline); maximum-length (1000-byte) frames, decodable and not, carrying a complete small frame near their tail; bursts of 35..2200 frames in one chunk while all consumers are held up in the first device creation. distinct = (consumers, network, classified sequence, payloads); "
                 "non-trivial = at least one raising frame together with a valid frame or a controller request")
     cases = [parse_case(ln) for _, ln in load_corpus("C09")]
+    ncorpus = len(cases)
     cases.extend(big_cases(random.Random(1000), 6))            # maximum-length frames (boundary of the reader's length gate)
     cases.extend(big_cases(rng, 30 if ctx["tier"] == "quick" else 300))
     cases.extend(burst_cases(rng, [40, 60, 130, 150, 1100] if ctx["tier"] == "quick" else [35, 40, 60, 110, 130, 150, 300, 700, 1100, 2200]))
@@ -930,6 +983,11 @@ def run(ctx):
             if rng.random() < 0.2:
                 c["net"] = random_net(rng)
             cases.append(c)
+    cases.extend(decoder_class_cases(rng, 20 if ctx["tier"] == "quick" else 400))
+    # the logging configuration of the application is a dimension of every generated case (corpus lines say their own)
+    for c in cases[ncorpus:]:
+        if "log" not in c:
+            c["log"] = rng.choice(["default", "default", "debug", "debug", "info", "debug-bare"])
     if ctx.get("max_cases"):
         cases = cases[:ctx["max_cases"]]
     evaluate(res, cases)
@@ -942,6 +1000,7 @@ def run(ctx):
             k = rng.randint(1, min(len(frs), 8))
             streams.append(b"".join(wire(fr) for fr in frs[:k]))
     loss_with_backlog(res)
+    c09_inject.run_section(res, rng, ctx["tier"])
     fanout.run_section(res, rng, 150 if ctx["tier"] == "quick" else 4000, "C09")
     producer.run_section(res, rng, 400 if ctx["tier"] == "quick" else 6000, "C09", streams)
     res.rule += ("; producer stage: byte streams of such frames and noise x write-fault scripts (OSError / timeout at any cycle), "
@@ -964,6 +1023,10 @@ def replay(ctx):
         fanout.replay_case(res, inp, "C09")
         res.case(json.dumps(inp["frames"]))
         return res
+    if inp.get("via") == "inject":
+        res.rule = "replay of one injected decoder / reader fault"
+        c09_inject.replay_case(res, inp)
+        return res
     if inp.get("via") == "stall":
         res.rule = "replay of one recorded frame that stalled the pipeline"
         res.case(json.dumps(inp["frame"], sort_keys=True))
@@ -973,5 +1036,5 @@ def replay(ctx):
                      f"a received frame (kind {inp['frame']['kind']}) stalls the pipeline: handling used more than {p['cpu_s']:.0f} s of CPU")
         return res
     res.rule = "replay of one recorded frame sequence"
-    evaluate(res, [dict(consumers=inp["consumers"], net=inp["net"], batches=inp["batches"], hold=bool(inp.get("hold")))])
+    evaluate(res, [dict(consumers=inp["consumers"], net=inp["net"], batches=inp["batches"], hold=bool(inp.get("hold")), log=inp.get("log"))])
     return res
